@@ -15,6 +15,7 @@ func newPacketIDLimiter(limit uint16) *packetIDLimiter {
 		exit:      false,
 		freePid:   1,
 		lockedPid: bitmap.New(packets.MaxPacketID),
+		reserved:  bitmap.New(packets.MaxPacketID),
 	}
 }
 
@@ -26,6 +27,7 @@ type packetIDLimiter struct {
 	limit     uint16
 	exit      bool
 	lockedPid *bitmap.Bitmap   // packet id in-use
+	reserved  *bitmap.Bitmap   // packet id in-use which pollPacketIDs handed out and no packet has been sent with yet
 	freePid   packets.PacketID // next available id
 }
 
@@ -64,6 +66,7 @@ func (p *packetIDLimiter) pollPacketIDs(max uint16) (id []packets.PacketID) {
 		id = append(id, p.freePid)
 		p.used++
 		p.lockedPid.Set(p.freePid, 1)
+		p.reserved.Set(p.freePid, 1)
 		if p.freePid == packets.MaxPacketID {
 			p.freePid = packets.MinPacketID
 		} else {
@@ -84,8 +87,30 @@ func (p *packetIDLimiter) release(id packets.PacketID) {
 func (p *packetIDLimiter) releaseLocked(id packets.PacketID) {
 	if p.lockedPid.Get(id) == 1 {
 		p.lockedPid.Set(id, 0)
+		p.reserved.Set(id, 0)
 		p.used--
 	}
+}
+
+// commit marks the ids returned by pollPacketIDs as sent: from now on an acknowledgement of the client releases them.
+func (p *packetIDLimiter) commit(id []packets.PacketID) {
+	p.cond.L.Lock()
+	for _, v := range id {
+		p.reserved.Set(v, 0)
+	}
+	p.cond.L.Unlock()
+}
+
+// releaseAcked releases an id which the client has acknowledged. An id that is only held in reserve for the next
+// message is not released: no packet has been sent with it, so the acknowledgement (e.g. a repeated PUBACK) does
+// not belong to it and must not widen the send window.
+func (p *packetIDLimiter) releaseAcked(id packets.PacketID) {
+	p.cond.L.Lock()
+	if p.reserved.Get(id) == 0 {
+		p.releaseLocked(id)
+	}
+	p.cond.L.Unlock()
+	p.cond.Signal()
 }
 
 func (p *packetIDLimiter) batchRelease(id []packets.PacketID) {
